@@ -464,6 +464,17 @@ where
         // had fallen back to 1 re-sent a capped batch from the start.)
         let prev_is_virtual = prev_log_index == 0 && prev_log_term == 0;
 
+        // A (0, 0) request whose entries do not start at index 1 is not a replication request (nothing
+        // links its entries to position 0): it keeps the historical meaning "replace the whole log".
+        if prev_is_virtual && new_entries.first().is_some_and(|e| e.index != 1) {
+            self.reset().await?;
+            self.append_entries(new_entries.clone()).await?;
+            return Ok(new_entries.last().map(|e| LogId {
+                term: e.term,
+                index: e.index,
+            }));
+        }
+
         // Check log consistency: use entry_term() so purge-boundary entries
         // (entries removed from the SkipMap but recorded in last_purged_index/term)
         // are still recognised as valid prev_log positions after snapshot install.
